@@ -12,7 +12,7 @@ from vlib.ctx import validate_trace
 def status_file_rows(c):
     thorough = c.tier == "thorough"
     name = "c11_status"
-    d0 = os.path.join(util.BUILD, "run", name)
+    d0 = os.path.join(util.RUNDIR, name)
     sdir = os.path.join(d0, "status")
     n = 60 if not thorough else 400
     doc = {"defaultAccess": "deny", "mode": "enforce", "id": "big",
